@@ -13,6 +13,10 @@ CURVES = ['UnitSquare', 'PiSquare', 'LShape', 'Circle', 'UnitInterval']
 _curve_cache = {}
 
 
+class CurveDomainError(ValueError):
+    pass
+
+
 def mixed_curve(P, name):
     """a PiecewiseParametrization of straight pieces (the repository's `line`) and circular arcs"""
     pieces = MIXED[name]
@@ -39,6 +43,17 @@ def curve(name):
         with repo.quiet():
             if isinstance(name, str) and name in MIXED:
                 _curve_cache[key] = mixed_curve(P, name)
+            elif name == 'CircleGuarded':
+                # the unit circle as a one-piece closed curve whose callable is only defined on its parameter interval
+                # (like a tabulated arc-length parametrisation): evaluating it elsewhere is an error of the caller
+                L = 2 * np.pi
+
+                def guarded(x_hat):
+                    xa = np.asarray(x_hat, dtype=float)
+                    if xa.size and (xa.min() < -1e-12 or xa.max() > L + 1e-12):
+                        raise CurveDomainError('curve evaluated on [%r, %r], outside [0, L]' % (float(xa.min()), float(xa.max())))
+                    return np.vstack([np.cos(xa), np.sin(xa)])
+                _curve_cache[key] = P.PiecewiseParametrization([0, L], [guarded])
             elif isinstance(name, str):
                 _curve_cache[key] = getattr(P, name)()
             else:
